@@ -108,3 +108,16 @@ Lemma defrag_run_ok steps : forall st, defrag_ok st -> defrag_ok (fold_left defr
 Proof.
   induction steps as [|e es IH]; intros st H; [exact H|]. cbn [fold_left]. apply IH. apply defrag_step_ok. exact H.
 Qed.
+
+(* ---- TLS <= 1.2: at every position of the stream the sender's limit in force is the receiver's -------------- *)
+(* `protected`: the record is after the sender's ChangeCipherSpec, i.e. the sender has switched its write
+   state and the receiver, processing that ChangeCipherSpec first, its read state *)
+Lemma limits_agree_at_every_position_l (protected negotiated sender_is_client : bool) (own : Z) :
+  64 <= own <= 16385 ->
+  send_limit_at protected negotiated sender_is_client (ext_sent sender_is_client own) =
+  recv_limit_at protected negotiated own /\
+  (protected = false -> send_limit_at protected negotiated sender_is_client (ext_sent sender_is_client own) = 16384).
+Proof.
+  intros H. unfold send_limit_at, recv_limit_at, send_limit_after, recv_limit_after, ext_sent.
+  destruct protected, negotiated, sender_is_client; cbn [andb]; split; try reflexivity; try (intros; discriminate); lia.
+Qed.
